@@ -130,6 +130,7 @@ func (ex *Exec) doCall(in *ssa.Call) {
 // callCommon executes a call and returns its value (nil for no results).
 func (ex *Exec) callCommon(cc *ssa.CallCommon, in *ssa.Call, p token.Pos) *Val {
 	c := ex.c
+	ex.curCall = cc
 	if b, ok := cc.Value.(*ssa.Builtin); ok {
 		return ex.builtin(b, cc, p)
 	}
